@@ -273,7 +273,8 @@ func c07case(c GCase, a *run.Acc) {
 		})
 	}
 	h := &gram.Hooks{
-		Inside: gd.Inside,
+		Inside:   gd.Inside,
+		MemoExpr: c.MemoExpr,
 		Around: func(e *gram.Expr, p parsley.Parser) parsley.Parser {
 			label := fmt.Sprintf("#%d %s", e.ID, e.String())
 			isOperand := rtrimOperand[e.ID]
